@@ -175,6 +175,16 @@ def llrp_scenarios(seed, thorough):
             add(name="negfail-spv-err", deflog=deflog, cur=1, max=2, spv="err", ka_before=1, queued=1, end="none")
             add(name="negfail-spv-wrongtype", deflog=deflog, cur=1, max=2, spv="wrongtype", queued=2, end="none")
         add(name="deflog-ok", deflog=True, cur=2, max=2, ka_before=1, ka_after=1, callers=2, reqs=2)
+        # version consistency: every frame written after Connect became ready carries the negotiated version.
+        # The reader answers GetSupportedVersion late (the write loop is parked by then), keep-alives before, during and
+        # right after negotiation, in both orders relative to the first request
+        add(name="vc-down-ka-first", cur=1, max=1, gsv_delay_us=2000, post_kas=2, post_ka_first=True, callers=2, reqs=2)
+        add(name="vc-down-req-first", cur=1, max=1, gsv_delay_us=2000, post_kas=2, queued=1, callers=1, reqs=2)
+        add(name="vc-down-ka-around", cur=1, max=1, gsv_delay_us=1000, ka_before=2, ka_after=2, post_kas=1, post_ka_first=True, callers=1, reqs=1)
+        add(name="vc-switch-ka-first", cur=2, max=1, gsv_delay_us=2000, ka_after=1, post_kas=2, post_ka_first=True, callers=1, reqs=2)
+        add(name="vc-up-ka-first", cur=1, max=2, gsv_delay_us=1000, post_kas=2, post_ka_first=True, callers=1, reqs=2, end="shutdown")
+        add(name="vc-same-ka-first", cur=2, max=2, gsv_delay_us=1000, post_kas=2, post_ka_first=True, callers=1, reqs=1)
+        add(name="vc-v101-ka-first", version=1, post_kas=2, post_ka_first=True, callers=1, reqs=1)
         if thorough:
             # traffic continues after the failing reply (with the default logger this can crash, see notes)
             add(name="negfail-gsv-err-tail", deflog=True, gsv="err", ka_after=3, tail_kas=5, end="none")
@@ -348,6 +358,9 @@ def run(tier, seed, replay=None):
         "Go memory model edges as in Race/Discipline.v (hb): program order, unlock->lock (RWMutex: one side a writer), k-th send->k-th "
         "receive, close->receive, go statement, WaitGroup Done->Wait; sync/atomic accesses never race with each other",
         "race detector (go test -race, ThreadSanitizer runtime): reports only races that occur in the executed schedules",
+        "version consistency (last clause) is a MEASUREMENT: frames the scripted reader receives that were certainly written after "
+        "Connect became ready (requests, CloseConnection, acks of keep-alives sent after ready) must carry min(client max, reader max); "
+        "frames written during negotiation may carry the configured maximum; plus a syntactic stale-read scan for Client.version",
     ]
     pr = vlib.proof_part(res, PID)
     w1 = way1(res)
@@ -406,7 +419,18 @@ def run(tier, seed, replay=None):
     with concurrent.futures.ThreadPoolExecutor(max_workers=8) as ex:
         results = list(ex.map(lambda j: run_proc(j[0], j[1], j[2], j[3]), jobs))
 
+    # static companion of the version-consistency scenarios: a value of `version` kept across a parking statement
+    for st in (table or {}).get("stale_reads", []):
+        res.violation("stale-read:%s:%s" % (st["field"], st["func"]),
+                      "%s: a value read from %s is stored in `%s` (%s:%d), the goroutine may then park (%s:%d: select / channel operation / "
+                      "Lock) and the stored value is still used afterwards (%s:%d) — a stale read: the field may have changed meanwhile "
+                      "(for `version`: a frame stamped with a version that negotiation has replaced)"
+                      % (st["func"], st["field"], st["var"], st["file"], st["store_line"], st["file"], st["block_line"], st["file"], st["use_line"]),
+                      dict(kind="stale-read", stale_read=st), found_input=False)
+
     bad = set(w1["bad"])
+    judged_frames = 0
+    KINDS = {72: "KeepAliveAck", 14: "CloseConnection", 1023: "request"}
     evals = nontriv = nreports = 0
     dist, samples, seen_nt = {}, [], set()
     witnesses = {}      # field -> list of (job, report, sites)
@@ -425,6 +449,16 @@ def run(tier, seed, replay=None):
                 cal = o.get("callers")
                 ncal = sum(cal.values()) if isinstance(cal, dict) else (len(cal) if isinstance(cal, list) else 0)
                 nt = nt or o.get("acks", 0) > 0 or ncal >= 2 or bool(o.get("frames")) or bool(o.get("calls"))
+                # the property's last clause, evaluated on what the reader received: frames certainly written after
+                # Connect became ready must carry the negotiated version
+                want = o.get("want_version") or 0
+                for fr in (o.get("post_frames") or []) if want else []:
+                    judged_frames += 1
+                    if fr["ver"] != want:
+                        kd = KINDS.get(fr["typ"], str(fr["typ"]))
+                        res.violation("stale-version:" + kd, "after negotiation settled on version %d (Connect was ready) the client wrote a %s "
+                                      "(id %d) stamped with version %d (scenario %s)" % (want, kd, fr["id"], fr["ver"], job[3]),
+                                      dict(kind="stale-version", scenarios=[job[4]], frame=fr, want_version=want, answer=l[:1500]))
             except ValueError:
                 nt = nt or l.startswith("ok sends=") or " hs " in l or "REN" in l
         if nt and job[2] not in seen_nt:
@@ -511,6 +545,6 @@ def run(tier, seed, replay=None):
                              "non-trivial iff the answer shows >= 2 goroutines of the library at work (keep-alives acknowledged, >= 2 caller "
                              "results, a handshake, or published events)",
                         samples=samples, input_distribution=dist, traces_validated_against_impl=evals,
-                        race_reports_parsed=nreports, race_fields={f: len(w) for f, w in witnesses.items()},
+                        frames_version_judged=judged_frames, race_reports_parsed=nreports, race_fields={f: len(w) for f, w in witnesses.items()},
                         crashes=len(crashes), trusted_base=res.assumptions)
     return res.finish()
